@@ -13,6 +13,7 @@ import typing
 from typing import Any, Dict, List, Literal, Set, Tuple, Union
 
 _enums = {}
+REC_IDS = {}      # id(opaque hint class) -> member name, for the hints of the query being run
 REC = []          # observed adapt_typehints(value, opaque hint): [name, value-json, result-json | None]
 
 
@@ -23,7 +24,37 @@ def opaque_classes():
 
     return {"PositiveFloat": jt.PositiveFloat, "PositiveInt": jt.PositiveInt, "ClosedUnitInterval": jt.ClosedUnitInterval,
             "NonNegativeInt": jt.NonNegativeInt, "Decimal": decimal.Decimal, "Email": jt.Email, "NotEmptyStr": jt.NotEmptyStr,
-            "StrColor": str_color(), "Picky": picky()}
+            "StrColor": str_color(), "Picky": picky(), **pred_types()}
+
+
+PRED = {}          # name -> [pattern, flag names]: restricted string types declared from a COMPILED pattern with flags
+_pred_types = {}
+
+
+def pred_types():
+    import re
+
+    from jsonargparse.typing import restricted_string_type
+
+    for name, (pat, flags) in PRED.items():
+        if name not in _pred_types:
+            fl = 0
+            for f in flags:
+                fl |= getattr(re, f)
+            _pred_types[name] = restricted_string_type(name, re.compile(pat, fl))
+    return dict(_pred_types)
+
+
+_tds = {}
+
+
+def td_class(name, fields):
+    from typing import TypedDict
+
+    key = json.dumps([name, fields])
+    if key not in _tds:
+        _tds[key] = TypedDict(name, {f: mk_ty(t) for f, t in fields})
+    return _tds[key]
 
 
 _picky = []
@@ -97,10 +128,9 @@ def install_recorder():
     if getattr(th, "_c02_rec", False):
         return
     orig = th.adapt_typehints
-    by_id = {id(cls): name for name, cls in opaque_classes().items()}
 
     def wrapper(val, typehint, **kw):
-        name = by_id.get(id(typehint))
+        name = REC_IDS.get(id(typehint))
         if name is None:
             return orig(val, typehint, **kw)
         before = to_json(val)
@@ -297,9 +327,12 @@ def run_xquery(q):
     try:
         fresh()
         oc = opaque_classes()
-        hints = [oc[m[1]] if m[0] == "opq" else mk_ty(m) for m in q["ms"]]
+        hints = [oc[m[1]] if m[0] == "opq" else (td_class(m[1], m[2]) if m[0] == "td" else mk_ty(m)) for m in q["ms"]]
+        REC_IDS.clear()
         for m, h in zip(q["ms"], hints):
-            if m[0] != "opq":
+            if m[0] in ("opq", "td"):
+                REC_IDS[id(h)] = m[1]
+            else:
                 check_ty(m, h)
         if len(hints) == 1:
             th = hints[0]
@@ -398,6 +431,7 @@ def run_group(g):
 def main():
     req = json.load(sys.stdin)
     members_of = req.get("enums", {})
+    PRED.update(req.get("pred", {}))
     obs = []
     def guarded(f, *a):
         # last resort: a harness-side error while observing ONE query must not take the batch down
